@@ -122,6 +122,7 @@ type call struct {
 	it  *iterRec // state-handler invocation of src that was open when the call was issued
 	ev  *SQLEvent // event of a statement whose reply is deferred (blocked SET read_only)
 	issued time.Duration // instant at which the caller issued the call
+	marker *SQLEvent // pending-attempt marker of a delayed statement
 	// filled by controller
 	key  string // stable identity incl. occurrence number
 	done bool
